@@ -49,6 +49,6 @@ Print Assumptions C16_uncached_reaccess_is_an_explicit_error.
 (** non-vacuity: an uncached HTTP block, reader partly drained, then digests, then re-access *)
 Example C16_example :
   block_run (fun x => 0%N :: x) (fun x => 1%N :: x) (fresh [72; 13; 10]%N [1; 2; 3; 4]%N false)
-            [ARaw (Some 4); ASize; ABlockDigest; APayload None; ACache]
-  = [RData [72; 13; 10; 1]%N; RNum 7; RStr [0; 72; 13; 10; 1; 2; 3; 4]%N; RErr; RErr].
+            [ARaw (Some 4%nat); ASize; ABlockDigest; APayload None; ACache]
+  = [RData [72; 13; 10; 1]%N; RNum 7%nat; RStr [0; 72; 13; 10; 1; 2; 3; 4]%N; RErr; RErr].
 Proof. vm_compute. reflexivity. Qed.
